@@ -182,6 +182,8 @@ pub struct GenCfg {
     /// weight (0..10) of examples annotations with several entries
     pub examples_bias: usize,
     pub shadow_bias: usize,
+    /// number of `res` statements of the main module
+    pub res_range: (usize, usize),
 }
 
 impl Default for GenCfg {
@@ -193,6 +195,7 @@ impl Default for GenCfg {
             max_depth: 3,
             examples_bias: 3,
             shadow_bias: 4,
+            res_range: (1, 3),
         }
     }
 }
@@ -1207,7 +1210,7 @@ pub fn generate(rng: &mut Rng, cfg: &GenCfg) -> ProgramAst {
         mods[m].decls = done.clone();
 
         // --- resources (main always has at least one; other modules may too, unused)
-        let nres = if m == 0 { rng.range(1, 3) } else { 0 };
+        let nres = if m == 0 { rng.range(cfg.res_range.0, cfg.res_range.1) } else { 0 };
         for _ in 0..nres {
             let mut cx = Cx {
                 rng,
@@ -1583,4 +1586,45 @@ pub fn renamed(ast: &ProgramAst, binder: usize, new_name: &str) -> ProgramAst {
     }
     a.binders[binder].name = new_name.to_string();
     a
+}
+
+/// The same sources with the *text* of annotations changed but every byte offset kept:
+/// inside `...` and `# ...` annotations the last letter of each quoted string moves to the
+/// next letter and every digit to the next digit ("revision N-1" of the same files).
+pub fn annotation_twist(text: &str) -> String {
+    let b = text.as_bytes();
+    let mut out = b.to_vec();
+    let mut i = 0;
+    while i < b.len() {
+        let (start, end) = if b[i] == b'`' {
+            let e = b[i + 1..].iter().position(|c| *c == b'`').map(|k| i + 1 + k).unwrap_or(b.len());
+            (i + 1, e)
+        } else if b[i] == b'#' && (i == 0 || b[i - 1] == b'\n' || b[i - 1] == b' ' || b[i - 1] == b'\t') {
+            let e = b[i..].iter().position(|c| *c == b'\n' || *c == b'\r').map(|k| i + k).unwrap_or(b.len());
+            (i + 1, e)
+        } else {
+            i += 1;
+            continue;
+        };
+        let mut in_str = false;
+        let mut last_alpha: Option<usize> = None;
+        for k in start..end.min(b.len()) {
+            let c = b[k];
+            if c == b'"' {
+                if in_str {
+                    if let Some(p) = last_alpha {
+                        out[p] = if b[p] == b'z' { b'a' } else if b[p] == b'Z' { b'A' } else { b[p] + 1 };
+                    }
+                }
+                in_str = !in_str;
+                last_alpha = None;
+            } else if in_str && c.is_ascii_alphabetic() {
+                last_alpha = Some(k);
+            } else if !in_str && c.is_ascii_digit() && k > start && (b[k - 1] == b' ' || b[k - 1].is_ascii_digit()) {
+                out[k] = if c == b'9' { b'1' } else { c + 1 };
+            }
+        }
+        i = end + 1;
+    }
+    String::from_utf8(out).unwrap_or_else(|_| text.to_string())
 }
